@@ -17,7 +17,7 @@ EXPLANATION = (
 TRUSTED = _c02.TRUSTED + ["model of CPython slot_tp_hash: a __hash__ result outside Py_ssize_t is replaced by hash(int); -1 -> -2",
                           "documented numeric hash definition (sys.hash_info: modulus 2^61-1, imag multiplier 1000003, width 64)"]
 ASSUMPTIONS = _c02.ASSUMPTIONS + ["hash obligations: binary exponent concrete per obligation (grid), mantissa symbolic"]
-BUDGET = {'quick': dict(ob_deadline_s=100, total_s=150), 'thorough': dict(ob_deadline_s=600, total_s=1500)}
+BUDGET = {'quick': dict(ob_deadline_s=100, total_s=240), 'thorough': dict(ob_deadline_s=600, total_s=1500)}
 BOUNDS = {'quick': 'comparison operands up to 30 bits, offsets -40..40, ints to 62 bits (longer than the context precision), floats incl. subnormal and huge exponents; hash mantissas up to 64 bits, exponents -62..130',
           'thorough': 'comparison operands up to 120 bits; hash exponents to -130 and 200-bit mantissas'}
 
@@ -62,6 +62,14 @@ def obligations(tier, seed=0):
             for fn in ('mpf_lt', 'mpf_le', 'mpf_gt', 'mpf_ge', 'mpf_eq'):
                 for fsign in ((0, 1) if 'fin' in (a, b) else (0,)):
                     add('cmp_special', a=a, b=b, fn=fn, fsign=fsign)
+    # seeded random shapes (deterministic for a given VERIF_SEED)
+    import random
+    rng = random.Random(4000 + int(seed or 0))
+    for _ in range(20 if not thorough else 80):
+        add('cmp', sbc=rng.randint(1, 30), tbc=rng.randint(1, 30), off=rng.randint(-45, 45), fn=rng.choice(['mpf_cmp', 'mpf_lt', 'mpf_le', 'mpf_gt', 'mpf_ge', 'mpf_eq']))
+        add('cmp_int', bc=rng.randint(1, 20), exp=rng.randint(-12, 50), nbc=rng.randint(1, 62), nneg=rng.randint(0, 1), fn=rng.choice(['<', '<=', '>', '>=', '==', '!=']))
+        add('hash_mpf', bc=rng.randint(1, 64), exp=rng.randint(-70, 140))
+        add('hash_mpc', rbc=rng.randint(1, 30), rexp=rng.randint(-10, 30), ibc=rng.randint(1, 30), iexp=rng.randint(-10, 30))
     # hashing
     hs = [(1, 0), (2, 0), (5, 0), (5, 3), (5, -3), (9, -1), (30, -10), (64, 70), (64, 0), (24, -30), (1, 61), (1, 60), (3, 59), (2, 60), (1, 62), (1, 122), (7, 130),
           (61, 0), (62, 0), (63, 0), (1, 63), (30, 33), (31, 31), (24, -61), (24, -62), (5, -60)]
